@@ -77,6 +77,12 @@ Theorem C20_variable_code :
   interp_at leb eqb ofZ interp mk assigns_final (template :: rest) q qv = ONew r -> get (qkeys q) r = Some qv.
 Proof. exact @variable_assigned. Qed.
 
+(* what both interpolators store in the result is a float leaf (so results can be interpolated again):
+   stated with Gen.spline_returns_float as regenerated from the source; before /repo 3338de6 the spline
+   stored a 0-d array (Witness.array_results_are_not_walked_legacy) *)
+Theorem C20_leaf_code : forall m : method, leaf_F m = @TF PrimFloat.float.
+Proof. exact leaf_code. Qed.
+
 (* a query on a series of same-shape instances with distinct abscissae never raises, provided the
    external routine accepts those abscissae *)
 Theorem C20_defined :
@@ -147,6 +153,7 @@ Print Assumptions C20_known_point.
 Print Assumptions C20_per_leaf.
 Print Assumptions C20_variable_code.
 Print Assumptions C20_defined.
+Print Assumptions C20_leaf_code.
 Print Assumptions C20_order_free.
 Print Assumptions C20_linear_exact.
 Print Assumptions C20_linear_trend_lsq.
